@@ -205,27 +205,34 @@ def check_laws(rows):
                 cnt["unquote_quote"] += 1
                 if unq[q] != s:
                     fails.append({"law": "unquote_quote", "s": s, "q": q, "unquoted": unq[q]})
+        parsed_times = [json.dumps(v, sort_keys=True) for v in ptime.values()]
+        parsed_floats = set(int(v) for v in pfloat.values())
         for t, ft in tb.get("ftime", []):
             bft = bytes.fromhex(ft)
             off = int(t["off"])
             local = int(t["ns"]) // 1000000000 + off
             in_dom = -62167219200 <= local < 253402300800 and off % 60 == 0 and -86400 < off < 86400
-            if not in_dom:
+            from_parser = json.dumps(t, sort_keys=True) in parsed_times
+            if not in_dom and not from_parser:
                 continue
+            which = "time(domain)" if in_dom else "time(accepted)"
             cnt["time_alphabet"] += 1
             if len(bft) == 0 or any(c not in alpha for c in bft):
-                fails.append({"law": "time_alphabet", "t": t, "text": ft})
-            if ft in ptime:
-                cnt["time_roundtrip"] += 1
-                if ptime[ft] != t:
-                    fails.append({"law": "time_roundtrip", "t": t, "text": ft, "parsed": ptime[ft]})
+                fails.append({"law": which + " alphabet", "t": t, "text": ft})
+            cnt["time_roundtrip"] += 1
+            if ptime.get(ft) != t:
+                fails.append({"law": which + " roundtrip", "t": t, "text": ft, "parsed": ptime.get(ft)})
+            if from_parser:
+                cnt["time_accepted"] = cnt.get("time_accepted", 0) + 1
         for b, ff in tb.get("ffloat", []):
             bi = int(b)
             nan = (bi >> 52) & 0x7FF == 0x7FF and (bi & ((1 << 52) - 1)) != 0
-            if nan:
+            from_parser = bi in parsed_floats
+            if nan and not from_parser:
                 continue
-            if ff in pfloat:
-                cnt["float_roundtrip"] += 1
-                if int(pfloat[ff]) != bi:
-                    fails.append({"law": "float_roundtrip", "bits": b, "text": ff, "parsed": pfloat[ff]})
+            cnt["float_roundtrip"] += 1
+            if ff not in pfloat or int(pfloat[ff]) != bi:
+                fails.append({"law": "float roundtrip" + (" (accepted)" if from_parser else ""), "bits": b, "text": ff, "parsed": pfloat.get(ff)})
+            if from_parser:
+                cnt["float_accepted"] = cnt.get("float_accepted", 0) + 1
     return cnt, fails
